@@ -15,6 +15,7 @@ package main
 import (
 	"fmt"
 	"go/types"
+	"math/big"
 	"strings"
 
 	"golang.org/x/tools/go/ssa"
@@ -163,9 +164,23 @@ func atomicCAS(x *Exec, st *State, fr *Frame, site ssa.Instruction, fn *ssa.Func
 	}
 	x.atomicEvent(st, "cas "+callArgDesc(site, 0), []*Val{args[1], args[2]}, []*Val{ok})
 	// on success the field holds the new value (as far as this path knows)
+	monotone := false
+	if fd := x.atomicDecl(p); fd != nil && strings.Contains(fd.Arg, "monotone") {
+		monotone = true
+	}
 	x.branch(st, ok.S,
 		func(s *State) { s.storeTo(p, args[2]); kn(s, []*Val{ok}) },
-		func(s *State) { kn(s, []*Val{ok}) })
+		func(s *State) {
+			if monotone {
+				// the flag was not 'old': for a 0/1 flag that never decreases it is above it
+				ii, _ := basicIntInfo(args[1].T)
+				cur := s.loadFrom(s.heap, p)
+				nv := s.freshVal("cas.seen", args[1].T)
+				s.assume(and(m.cmp(tokenLE, cur.S, nv.S, ii), not(eq(nv.S, args[1].S)), m.cmp(tokenLE, nv.S, m.lit(pow2(0), ii), ii), m.cmp(tokenLE, m.lit(big.NewInt(0), ii), nv.S, ii)))
+				s.storeTo(p, nv)
+			}
+			kn(s, []*Val{ok})
+		})
 }
 
 func atomicAdd(x *Exec, st *State, fr *Frame, site ssa.Instruction, fn *ssa.Function, args []*Val, kn func(*State, []*Val), kp func(*State, *Val)) {
@@ -429,6 +444,9 @@ func (x *Exec) recvStmt(st *State, fr *Frame, in *ssa.UnOp, next func(*State)) {
 	ch := x.operand(st, fr, in.X)
 	elem := in.X.Type().Underlying().(*types.Chan).Elem()
 	rv := st.freshVal("recv", elem)
+	if x.isDoneChan(in.X) {
+		st.assume(x.chclosedTerm(st, st.heap, ch.S)) // a receive from a Done channel completes only once it is closed
+	}
 	x.atomicEvent(st, "recv "+describe(in.X), []*Val{ch}, []*Val{rv})
 	if in.CommaOk {
 		ok := st.freshVal("recv.ok", types.Typ[types.Bool])
